@@ -135,8 +135,119 @@ def run(prog, tier, repo):
                         # both closures receive the element as their argument (_2)
                         if owner[0] == 2 and child[0] == 2:
                             check(pred, gt[7], owner, cons, dt[7], child, 'filter -> ' + (callee(t2)[1] or '').split('::')[-1])
+    # (C) the renamer and the scope analysis: a descent gated by a value computed from a Location (e.g. "is anything to rename
+    # inside this range?") or by a boolean data field of the node. The former must use a location covering the child; the
+    # latter is never a reason to skip a child in these walkers (surface-syntax flags such as `shorthand` do not change
+    # which identifiers occur in a node).
+    for mod in ('samlang_services::variable_definition', 'samlang_checker::ssa_analysis'):
+        fam2 = [b for b in prog.bodies.values() if (b.name + '::').startswith(mod + '::') or ('::' + mod.split('::')[-1] + '::') in b.name and b.crate == mod.split('::')[0]]
+        for b in fam2:
+            cfg = cfg_of(b)
+            for di, bl in enumerate(b.blocks):
+                t = bl.term
+                if bl.cleanup or t[0] != 'call':
+                    continue
+                cid, nm = callee(t)
+                cb = prog.bodies.get(cid) if cid else None
+                if cb is None or not cb.name.startswith(mod.rsplit('::', 1)[0]) or mod.split('::')[-1] not in cb.name:
+                    continue
+                child = None
+                for o in t[3]:
+                    if o[0] in ('c', 'm') and _is_node_ty(b.locals[o[1].local]):
+                        child = operand_root(b, o)
+                        break
+                if child is None or child[0] is None:
+                    continue
+                child = (child[0], _names(child[1]))
+                for si, sb in enumerate(b.blocks):
+                    st = sb.term
+                    if sb.cleanup or st[0] != 'switch' or st[1][0] not in ('c', 'm') or st[1][1].proj \
+                            or b.locals[st[1][1].local].s != 'bool':
+                        continue
+                    succs = set([tg for _, tg in st[2]] + [st[3]])
+                    if len(succs) < 2 or len([tg for tg in succs if cfg.edges_dominate([(si, tg)], di)]) != 1:
+                        continue
+                    for kind, owner in _gate_sources(b, st[1][1].local):
+                        if owner[0] != child[0]:
+                            continue
+                        if kind == 'loc':
+                            check(b, st[4], owner, b, t[7], child, 'location-derived condition')
+                        elif kind == 'field' and owner[1] and owner[1][:-1] == child[1][:len(owner[1]) - 1] \
+                                and owner[1] != child[1][:len(owner[1])]:
+                            n_guards += 1
+                            res.violation(f'field-gate:{b.name}:{".".join(owner[1])}->{".".join(child[1])}', b.loc(st[4]),
+                                          f'{b.name}: the descent into `{".".join(child[1])}` is skipped depending on the boolean field '
+                                          f'`{".".join(owner[1])}` of the same node: identifiers occurring in the skipped child are '
+                                          f'then neither resolved nor renamed, so navigation and rename disagree with the checker')
     res.floor('position guards gating a descent', n_guards, 6)
     return [res]
+
+
+def _is_node_ty(t):
+    t = strip_refs(t)
+    while t.k == 'adt' and t.name.split('<')[0] in ('std::boxed::Box', 'std::vec::Vec', 'std::option::Option') and t.args:
+        t = strip_refs(t.args[0])
+    return t.k == 'adt' and t.name.startswith('samlang_ast::source')
+
+
+def _is_location(t):
+    t = strip_refs(t)
+    return t.k == 'adt' and t.name.split('::')[-1] == 'Location' and t.name.startswith('samlang_ast')
+
+
+def _gate_sources(b, bool_local, depth=0, seen=None):
+    """What a branch condition is computed from: ('loc', (root, owner-path)) for every Location it depends on through call
+    arguments, ('field', (root, path)) when it is a (negated) boolean field read."""
+    seen = seen if seen is not None else set()
+    if bool_local in seen or depth > 5:
+        return []
+    seen.add(bool_local)
+    sd = single_def(b, bool_local)
+    out = []
+    if not sd:
+        return out
+    if sd[1] != 'term':
+        rv = sd[2]
+        if rv[0] == 'un' and rv[2][0] in ('c', 'm'):
+            if rv[2][1].proj:
+                r, p = operand_root(b, rv[2])
+                if r is not None and any(e[0] == 'f' for e in p):
+                    out.append(('field', (r, _names(p))))
+            else:
+                out += _gate_sources(b, rv[2][1].local, depth + 1, seen)
+        elif rv[0] == 'use' and rv[1][0] in ('c', 'm'):
+            r, p = operand_root(b, rv[1])
+            if rv[1][1].proj or (r is not None and r != rv[1][1].local):
+                if r is not None and any(e[0] == 'f' for e in p) and b.locals[bool_local].s == 'bool':
+                    out.append(('field', (r, _names(p))))
+            else:
+                out += _gate_sources(b, rv[1][1].local, depth + 1, seen)
+        elif rv[0] == 'ref':
+            r, p = operand_root(b, ('c', rv[2]))
+            if not rv[2].proj:
+                out += _gate_sources(b, rv[2].local, depth + 1, seen)
+        return out
+    t = sd[2]
+    for o in t[3]:
+        if o[0] not in ('c', 'm'):
+            continue
+        ty = b.locals[o[1].local]
+        if _is_location(ty):
+            r, p = operand_root(b, o)
+            nm = _names(p)
+            if r is not None and nm and nm[-1] == 'loc':
+                out.append(('loc', (r, nm[:-1])))
+            else:
+                sd2 = single_def(b, r) if r is not None else None
+                if sd2 and sd2[1] == 'term' and (callee(sd2[2])[1] or '').split('::')[-1] == 'loc' and sd2[2][3]:
+                    r2, p2 = operand_root(b, sd2[2][3][0])
+                    if r2 is not None:
+                        out.append(('loc', (r2, _names(p2))))
+        elif not o[1].proj:
+            r, _p = operand_root(b, o)
+            if r is not None:
+                out += _gate_sources(b, r, depth + 1, seen)
+    return out
 
 
 def _closure_of(prog, b, op):
